@@ -195,7 +195,17 @@ def run(ctx, rep):
                 continue
             closures = [g for g in c.gargs if g.startswith("{closure@")]
             if not closures:
-                r.ok(key, "natural order of the element/key type: %s" % full[:90], c.where())
+                # natural order: the thing ordered must be a JSON value (or Option of one) or the String keys of an
+                # object - a tuple / struct element would break ties by its other components, not by arrival
+                el = (c.gargs or ["?"])[0]
+                natural_ok = el in ("json_value::JsonValue", "std::option::Option<json_value::JsonValue>") or \
+                    (t == "sort_keys" and el == "std::string::String")
+                if natural_ok:
+                    r.ok(key, "natural order of %s" % el, c.where())
+                else:
+                    r.bad(key, "sorts by the natural order of `%s`: equal keys are then ordered by the other components "
+                          "instead of keeping arrival order (and the order is no longer the one order of JSON values)"
+                          % el[:120], c.where())
                 continue
             # comparator closure: find its body via the aggregate passed as argument
             cb = None
